@@ -12,7 +12,7 @@ variable {x : ClsX}
 @[simp] theorem truthy_ixV (decl : Decl) (ix : Index) : truthy (ixV decl ix) = true := rfl
 
 /-- the loop of `createIndexes` -/
-theorem createIdx_loop (n : Nat) (d : Dialect) (hd : d ≠ .mysql) (c : Caps) (decl : Decl) (c0 : Val)
+theorem createIdx_loop (n : Nat) (d : Dialect) (c : Caps) (decl : Decl) (c0 : Val)
     (ht : 32 ∉ decl.tableName) (l : List Index) (hb : ∀ ix ∈ l, 32 ∉ ix.name) : ∀ (w : Cat) (env : Env),
       env 0 = some (soClassV decl c0 x) → env 3 = some (connV d c) →
       match createIdx decl.tableName (l.map (·.name)) w with
@@ -25,7 +25,7 @@ theorem createIdx_loop (n : Nat) (d : Dialect) (hd : d ≠ .mysql) (c : Caps) (d
   | nil => intro w env _ _; exact ⟨env, rfl⟩
   | cons ix l ih =>
     intro w env h0 h3
-    have hc := connCreateIndex n d hd c decl c0 x ix w ht (hb ix (by simp))
+    have hc := connCreateIndex n d c decl c0 x ix w ht (hb ix (by simp))
     have ih' := ih (fun k hk => hb k (by simp [hk]))
     simp only [List.map_cons, createIdx]
     by_cases hm : (decl.tableName, ix.name) ∈ w.indexes
@@ -46,14 +46,14 @@ theorem createIdx_loop (n : Nat) (d : Dialect) (hd : d ≠ .mysql) (c : Caps) (d
         rw [← h]; pyw [forLoopW, loopStepW, SQLObject__createIndexes_for0, indexRes, hm]
 
 /-- **`SQLObject.createIndexes(ifNotExists, connection)` translated = `createIdx`** (the flag is ignored, as in the
-    model; every dialect but MySQL, whose index statement the reader does not follow) -/
-theorem createIndexes_eq (n : Nat) (d : Dialect) (hd : d ≠ .mysql) (c : Caps) (decl : Decl) (c0 : Val) (ine : Bool)
+    model; all seven dialects) -/
+theorem createIndexes_eq (n : Nat) (d : Dialect) (c : Caps) (decl : Decl) (c0 : Val) (ine : Bool)
     (w : Cat) (ht : 32 ∉ decl.tableName) (hb : ∀ ix ∈ decl.indexes, 32 ∉ ix.name) :
     agreesW (callNW prog ddlI EX (n + 4) w (.meth C_SQLObject M_createIndexes)
         [soClassV decl c0 x, .bool ine, connV d c])
       (createIdx decl.tableName (decl.indexes.map (·.name)) w) := by
   rw [callXW_succ _ _ _ _ _ res_SQLObject_createIndexes]
-  have hl := createIdx_loop (x := x) n d hd c decl c0 ht decl.indexes hb w
+  have hl := createIdx_loop (x := x) n d c decl c0 ht decl.indexes hb w
     ((Env.ofArgs [soClassV decl c0 x, .bool ine, connV d c]).put 3 (connV d c)) (by simp) (by simp)
   revert hl
   cases createIdx decl.tableName (decl.indexes.map (·.name)) w <;> intro hl
@@ -68,13 +68,16 @@ theorem createIndexes_eq (n : Nat) (d : Dialect) (hd : d ≠ .mysql) (c : Caps) 
 
 /-! ### `createTable` -/
 
-theorem constraints_alter (d : Dialect) (decl : Decl) : ∀ s ∈ constraints TX d decl, ∀ w, execSQL s w = .ok w := by
+theorem constraints_alter (d : Dialect) (decl : Decl) (hb : 32 ∉ decl.tableName) :
+    ∀ s ∈ constraints TX d decl, ∀ w, execSQL s w = .ok w := by
   intro s hs w
   simp only [constraints, List.mem_filterMap] at hs
   obtain ⟨col, _, hcol⟩ := hs
   obtain ⟨name, dbn, kind, nn, uq, alt, ds⟩ := col
+  have key : ∀ rest : Str, execSQL (pAT ++ (decl.tableName ++ 32 :: 65 :: 68 :: 68 :: 32 :: 67 :: rest)) w = .ok w :=
+    fun rest => exec_alter decl.tableName 65 68 68 32 67 rest w hb (by decide)
   cases d <;> cases kind <;> simp [alterFk] at hcol <;>
-    (subst hcol; simp [execSQL, strip, pCT, pDT, pCI, pCUI, lit])
+    (subst hcol; simpa [lit, pAT] using key _)
 
 /-- a loop `for s in l: conn.query(s)` over statements that leave the catalogue alone -/
 theorem query_loop_noop (callW : Cat → Callee → List Val → R Val × Cat) (call : Callee → List Val → R Val)
@@ -122,7 +125,7 @@ theorem createTable_split : SQLObject__createTable =
 
 set_option maxHeartbeats 2000000 in
 /-- the tail of `SQLObject.createTable` from an environment in which the table has been created -/
-theorem createTable_tail (n : Nat) (d : Dialect) (hmy : d ≠ .mysql) (c : Caps) (decl : Decl) (c0 : Val)
+theorem createTable_tail (n : Nat) (d : Dialect) (c : Caps) (decl : Decl) (c0 : Val)
     (ine cj : Bool) (w1 : Cat) (env : Env)
     (hb : 32 ∉ decl.tableName) (hbl : ∀ j ∈ joinsToCreateX x.joins, 32 ∉ j.join.table)
     (hbi : ∀ ix ∈ decl.indexes, 32 ∉ ix.name)
@@ -138,7 +141,7 @@ theorem createTable_tail (n : Nat) (d : Dialect) (hmy : d ≠ .mysql) (c : Caps)
     fun w => createJoinTables_eq (x := x) (n + 6) d c decl c0 ine w hbl
   have hi : ∀ w, agreesW (callNW prog ddlI EX (n + 10) w (.meth C_SQLObject M_createIndexes)
       [soClassV decl c0 x, .bool ine, connV d c]) (createIdx decl.tableName (decl.indexes.map (·.name)) w) :=
-    fun w => createIndexes_eq (x := x) (n + 6) d hmy c decl c0 ine w hb hbi
+    fun w => createIndexes_eq (x := x) (n + 6) d c decl c0 ine w hb hbi
   cases cj
   · -- no join tables
     have hi1 := hi w1
@@ -199,8 +202,8 @@ set_option maxHeartbeats 2000000 in
     translated = `createTableG`** of the catalogue model with the flags read from the source
     (`createPassesIfNotExists`, `createDedupes`): the `tableExists` early return, `conn.createTable` (CREATE TABLE; the
     ALTER TABLE constraints executed or handed back: no effect on the catalogue), `createJoinTables` with the flag
-    handed on, `createIndexes`.  Every connection class but MySQL's (whose index statements the reader does not follow). -/
-theorem createTable_eq (n : Nat) (d : Dialect) (hmy : d ≠ .mysql) (c : Caps) (decl : Decl) (c0 : Val)
+    handed on, `createIndexes`.  All seven connection classes. -/
+theorem createTable_eq (n : Nat) (d : Dialect) (c : Caps) (decl : Decl) (c0 : Val)
     (ine cj ac : Bool) (w : Cat) (text : Str) (ht : createTableSQL TX d c decl = some text)
     (hb : 32 ∉ decl.tableName) (hbl : ∀ j ∈ joinsToCreateX x.joins, 32 ∉ j.join.table)
     (hbi : ∀ ix ∈ decl.indexes, 32 ∉ ix.name) :
@@ -216,10 +219,10 @@ theorem createTable_eq (n : Nat) (d : Dialect) (hmy : d ≠ .mysql) (c : Caps) (
     cases ac
     · -- the constraints are handed back in `extra_sql`
       cases ine <;> headeval' <;>
-        (refine createTable_tail (x := x) n d hmy c decl c0 _ cj _ _ hb hbl hbi ?_ ?_ ?_ ?_ ?_ ?_ ?_ <;> simp)
+        (refine createTable_tail (x := x) n d c decl c0 _ cj _ _ hb hbl hbi ?_ ?_ ?_ ?_ ?_ ?_ ?_ <;> simp)
     · -- the constraints are executed: ALTER TABLE … ADD CONSTRAINT, no effect on the catalogue
       obtain ⟨env', h1, h2⟩ := query_loop_noop (callNW prog ddlI EX (n + 10)) (callN prog ddlI (n + 10)) 6
-        SQLObject__createTable_for0 10 rfl (constraints TX d decl) (constraints_alter d decl)
+        SQLObject__createTable_for0 10 rfl (constraints TX d decl) (constraints_alter d decl hb)
         (addTbl decl.tableName w) (connV d c) (by decide)
         (((((Env.ofArgs [soClassV decl c0 x, .bool ine, .bool cj, .bool true, .bool true, connV d c]).put 6
           (connV d c)).put 7 (.list [])).put 8 (.list [])).put 9 (strList (constraints TX d decl))) (by simp)
@@ -227,7 +230,7 @@ theorem createTable_eq (n : Nat) (d : Dialect) (hmy : d ≠ .mysql) (c : Caps) (
       have e3 := h2 3 (by decide); have e6 := h2 6 (by decide); have e7 := h2 7 (by decide)
       have e8 := h2 8 (by decide)
       simp only [Env.put_apply, Env.ofArgs_zero, Env.ofArgs_succ, strList] at e0 e1 e2 e3 e6 e7 e8 h1
-      have ht' := createTable_tail (x := x) n d hmy c decl c0 ine cj (addTbl decl.tableName w) env' hb hbl hbi
+      have ht' := createTable_tail (x := x) n d c decl c0 ine cj (addTbl decl.tableName w) env' hb hbl hbi
         (by simpa using e0) (by simpa using e1) (by simpa using e2) (by simpa using e3) (by simpa using e6)
         (by simpa using e8) ⟨_, by simpa using e7⟩
       cases ine <;> headeval' <;> exact ht'
